@@ -337,7 +337,13 @@ impl C13 {
         let gen_pool: u64 = if ctx.tier == Tier::Quick { 24 } else { 256 };
         let doc = match rng.below(10) {
             0..=4 => pool.generated(&Family::Rich, rng.below(gen_pool)),
-            5 => pool.generated(&Family::TwoLeaf, rng.below(4)),
+            5 => {
+                if rng.coin() {
+                    pool.generated(&Family::TwoLeaf, rng.below(4))
+                } else {
+                    pool.generated(&Family::DeepTree, rng.below(4))
+                }
+            }
             6 | 7 => pool.generated(&Family::CyclicParents, rng.below(4)),
             _ => {
                 let mut d = None;
